@@ -55,7 +55,7 @@ Proof. apply (fr_deliver_user uqA uqA_refl U_userq). Qed.
 Lemma uq_terminate s self t g s' o : terminate s self t g = (s', o) -> uq s s'.
 Proof. apply (fr_terminate uqA uqA_refl U_userq U_sysq U_susp). Qed.
 Lemma uq_spawn s u self t r s' o p : spawn s u self t r = (s', o, p) -> uq s s'.
-Proof. apply (fr_spawn uqA uqA_refl uqA_trans U_sysq U_susp U_children). Qed.
+Proof. apply (fr_spawn uqA uqA_refl uqA_trans U_userq U_sysq U_susp U_children). Qed.
 
 (* does the step take the head of seq of object v (whose record in the pre-state is a)? *)
 Definition consumes (l : label) (v : nat) (a : actor) : bool :=
